@@ -80,9 +80,15 @@ func RunConcurrent(sc *Scenario) *RunResult {
 				}
 			}
 		}
+		if cr := w.R.VerifCache(); sc.Pre && cr != nil && !cr.VerifLockFree() {
+			// statement-level preemption: a task is parked inside the cache's critical section. What the
+			// lock protects is not in a state any caller can observe (and, if the structure is
+			// hand-written rux code, not even safe to walk): nothing is read between these two steps.
+			return
+		}
 		res.States = append(res.States, abstractState(w, s))
 		reachProbes(w, s, &prevKeys)
-		if cr := w.R.VerifCache(); cr != nil && sc.Options.Caching && (!sc.Pre || cr.VerifLockFree()) { // (with statement-level preemption a task may be parked inside the critical section)
+		if cr := w.R.VerifCache(); cr != nil && sc.Options.Caching {
 			keys, idx := cr.VerifKeys()
 			if len(keys) > sc.Options.Capacity && !(sc.Options.Capacity == 0 && len(keys) == 0) {
 				res.Between = append(res.Between, fmt.Sprintf("cache holds %d entries, capacity %d (step %d)", len(keys), sc.Options.Capacity, step))
